@@ -140,3 +140,44 @@ def ingress_mixed_reads(h):
 def ingress_detach(h):
     h.params = dict(h.params, detach=True)
     ingress_mixed_reads(h)
+
+
+def _replay_ingress(model, params, role, detach):
+    d = dict(map(tuple, model.get("_choices", [])))
+    k = params.get("calls", 4)
+    msgs = {0: [0xA1, 0xA2, 0xA3], 1: [0xB1, 0xB2]}
+    first = d.get("first_enqueued", 0)
+    lines = ["ing_new", f"ing_send {first} {bytes(msgs[first]).hex()}", f"ing_send {1 - first} {bytes(msgs[1 - first]).hex()}"]
+    for i in range(k):
+        if f"call{i}" not in d:
+            break
+        op = d[f"call{i}"]
+        lines.append("ing_recv" if op == 0 else "ing_recvmp" if op == 1 else f"ing_dereg {op - 2}")
+    def pred(out):
+        expect_next, bad = None, False
+        for l in out.splitlines():
+            if l.startswith("detach "):
+                p = int(l.split()[1])
+                if expect_next is not None and expect_next[0] == p:
+                    expect_next = None
+            elif l.startswith("frame ") and "none" not in l:
+                t = l.split()[1]
+                more = t.endswith("+")
+                tag = int(t.rstrip("+"), 16)
+                owner = 0 if tag in msgs[0] else 1
+                idx = msgs[owner].index(tag)
+                if expect_next is not None:
+                    bad = bad or (owner, idx) != expect_next
+                else:
+                    bad = bad or idx != 0
+                expect_next = (owner, idx + 1) if more else None
+        return bad
+    return "\n".join(lines) + "\n", pred, "call sequence replayed natively on the real AnonymousIngressEngine; expecting a frame that does not continue the message being read"
+
+
+def replay_ingress_mixed_reads(model, params, role):
+    return _replay_ingress(model, params, role, False)
+
+
+def replay_ingress_detach(model, params, role):
+    return _replay_ingress(model, params, role, True)
